@@ -109,8 +109,13 @@ SPECS = {
                 "every documented spelling at chosen nodes (callback sequence, nothing after "
                 "stop, carried value); RANDOM_ORDER with the PRNG bound to a seeded SimRandom. "
                 "Non-trivial: >= 3 successful mutations and a traversal probe fired.",
-        "probes": ["visit_skip", "visit_stop", "iter_zigzag", "iter_random"],
+        "probes": ["visit_skip", "visit_stop", "iter_zigzag", "iter_random", "deep_beyond_limit"],
         "assumptions": ASSUME_COMMON,
+        "rebuild_mod": "simkit.deep",
+        # the non-recursive traversals on branches deeper than the recursion limit
+        # (the history engine's trees stay <= ~150 deep); coverage.deep in the evidence
+        "extra_blocks": [{"engine": "deep", "mod": "simkit.deep", "fn": "deep_block",
+                          "runs": {"quick": 96, "thorough": 4000}, "block": 6}],
     },
     "C18": {
         "driver": "simkit.check_c18", "level": "exploration",
